@@ -76,6 +76,18 @@ def gen_cases(tier, seed):
     for t in triples:
         cases.append({"kind": "route", "triple": list(t), "pseed": rnd.randrange(2 ** 32),
                       "nids": 80 if tier == "quick" else 400})
+    # the same values seen from outside: a dataset with several sharded scales (each with its
+    # own grid and its own configured triple) written through the real accessor, scales
+    # interleaved; the shard files that appear must carry the names the specification
+    # derives for the configured triple of THEIR scale
+    for _ in range(60 if tier == "quick" else 600):
+        scs = []
+        chunk = rnd.choice([1, 2, 4])
+        for _k in range(rnd.choice([2, 2, 3])):
+            scs.append({"grid": [rnd.randint(1, 9) for _ in range(3)],
+                        "chunk": chunk if rnd.random() < 0.7 else rnd.choice([1, 2, 4]),
+                        "triple": [rnd.randint(0, 3), rnd.randint(0, 3), rnd.randint(0, 4)]})
+        cases.append({"kind": "dataset", "scales": scs, "pseed": rnd.randrange(2 ** 32)})
     return cases
 
 
@@ -256,7 +268,78 @@ def run_route(case):
             "sample": {"kind": "route", "triple": case["triple"], "ids": len(ids)}}
 
 
+def run_dataset(case):
+    import json
+    import os
+    import shutil
+
+    from neuroglancer_scripts import accessor as accessor_mod
+    from neuroglancer_scripts import sharded_file_accessor
+    rnd = random.Random(case["pseed"])
+    d = tempfile.mkdtemp(prefix="c09-")
+    obs = {"datasets": 1, "dataset_chunks_stored": 0, "dataset_shard_files": 0}
+    v = []
+    scales = []
+    for i, sc in enumerate(case["scales"]):
+        pre, mini, shard = sc["triple"]
+        scales.append({"key": f"s{i}", "size": [g * sc["chunk"] for g in sc["grid"]],
+                       "chunk_sizes": [[sc["chunk"]] * 3], "resolution": [2 ** i] * 3,
+                       "voxel_offset": [0, 0, 0], "encoding": "raw",
+                       "sharding": {"@type": "neuroglancer_uint64_sharded_v1",
+                                    "hash": "identity", "preshift_bits": pre,
+                                    "minishard_bits": mini, "shard_bits": shard,
+                                    "minishard_index_encoding": "raw",
+                                    "data_encoding": "raw"}})
+    info = {"type": "image", "data_type": "uint8", "num_channels": 1, "scales": scales}
+    ctx = "dataset " + "; ".join(f"s{i}: grid {sc['grid']} chunk {sc['chunk']} "
+                                 f"(pre,mini,shard)={tuple(sc['triple'])}"
+                                 for i, sc in enumerate(case["scales"]))
+    try:
+        with open(os.path.join(d, "info"), "w") as f:
+            json.dump(info, f)
+        acc = accessor_mod.get_accessor_for_url(d)
+        if not isinstance(acc, sharded_file_accessor.ShardedFileAccessor):
+            return {"violations": [{"kind": "dispatch-not-sharded", "detail": ctx}],
+                    "obs": obs, "evals": 1}
+        todo = []
+        for i, sc in enumerate(case["scales"]):
+            allpos = list(itertools.product(*(range(g) for g in sc["grid"])))
+            for pos in rnd.sample(allpos, min(len(allpos), 12)):
+                todo.append((i, pos))
+        rnd.shuffle(todo)
+        expected = {}
+        for i, pos in todo:
+            sc = case["scales"][i]
+            c = sc["chunk"]
+            coords = (pos[0] * c, (pos[0] + 1) * c, pos[1] * c, (pos[1] + 1) * c,
+                      pos[2] * c, (pos[2] + 1) * c)
+            acc.store_chunk(bytes([i + 1]) * (c ** 3), f"s{i}", coords)
+            obs["dataset_chunks_stored"] += 1
+            cid = morton_spec.compressed_morton(sc["grid"], pos)
+            _s, _m, stem = morton_spec.route(cid, *sc["triple"])
+            expected.setdefault(i, set()).add(stem + ".shard")
+        acc.close()
+        for i in expected:
+            have = {n for n in os.listdir(os.path.join(d, f"s{i}")) if n.endswith(".shard")}
+            obs["dataset_shard_files"] += len(have)
+            if have != expected[i]:
+                v.append({"kind": "shard-files-differ-from-the-names-prescribed-for-the-"
+                          "configured-triple", "detail": f"{ctx}: scale s{i}: unexpected "
+                          f"{sorted(have - expected[i])[:4]}, missing "
+                          f"{sorted(expected[i] - have)[:4]}"})
+    except Exception as exc:  # noqa: BLE001
+        v.append({"kind": "dataset-write-raised",
+                  "detail": f"{ctx}: {type(exc).__name__}: {str(exc)[:160]}"})
+    finally:
+        shutil.rmtree(d, ignore_errors=True)
+    return {"violations": v[:6], "obs": obs, "evals": max(1, obs["dataset_chunks_stored"]),
+            "distinct_disjoint": obs["dataset_chunks_stored"],
+            "sample": {"kind": "dataset", "scales": case["scales"]}}
+
+
 def run_case(case):
+    if case["kind"] == "dataset":
+        return run_dataset(case)
     return run_grid(case) if case["kind"] == "grid" else run_route(case)
 
 
@@ -273,4 +356,6 @@ def gates(obs, tier):
         "cubic_grids_beyond_1024_per_axis": obs.get("equal_bits_beyond_10_per_axis", 0) > 0,
         "totals_beyond_64_bits": obs.get("total_bits_over_64", 0) > 0,
         "shard_bits_not_multiple_of_4": obs.get("shard_bits_not_multiple_of_4", 0) > 0,
+        "multi_scale_datasets_written_through_the_accessor": obs.get(
+            "dataset_shard_files", 0) > 100,
     }
